@@ -346,6 +346,7 @@ pub fn cmd_w2(args: &Args) -> i32 {
     // abnormal cases: idx -> (class, text)
     let mut abnormal: BTreeMap<u64, (String, String)> = BTreeMap::new();
     let mut harness_errors: Vec<String> = Vec::new();
+    let mut truncated = false;
     loop {
         let mut alive = 0;
         for slot in workers.iter_mut() {
@@ -416,6 +417,18 @@ pub fn cmd_w2(args: &Args) -> i32 {
         if alive == 0 {
             break;
         }
+        // a flood of aborts / hangs: the verdict is certain, do not spend 20 s per further case
+        if abnormal.len() >= 12 {
+            for slot in workers.iter_mut() {
+                if let Some(w) = slot.as_mut() {
+                    let _ = w.child.kill();
+                    let _ = w.child.wait();
+                }
+                *slot = None;
+            }
+            truncated = true;
+            break;
+        }
         std::thread::sleep(Duration::from_millis(20));
     }
 
@@ -473,7 +486,7 @@ pub fn cmd_w2(args: &Args) -> i32 {
     let mut det_pairs = 0u64;
     let mut det_mismatch = 0u64;
     {
-        let dlimit = args.num("determinism", if tier == "thorough" { 20_000 } else { 4_000 }).min(limit);
+        let dlimit = if truncated { 0 } else { args.num("determinism", if tier == "thorough" { 20_000 } else { 4_000 }).min(limit) };
         let dof = 5u64;
         let mut ws: Vec<Worker> = Vec::new();
         let dstart2 = (2 * sp.singles.len() as u64).min(limit);
@@ -626,7 +639,10 @@ pub fn cmd_w2(args: &Args) -> i32 {
             exit = 2;
         }
     }
-    if evaluations < limit {
+    if truncated {
+        println!("NOTE batch stopped early after {} aborted / hung cases ({} of {} cases executed)", abnormal.len(), evaluations, limit);
+    }
+    if evaluations < limit && !truncated {
         println!("HARNESS-ERROR only {} of {} cases were executed", evaluations, limit);
         if exit == 0 {
             exit = 2;
@@ -663,6 +679,7 @@ pub fn cmd_w2(args: &Args) -> i32 {
         .set("error_kinds_returned", J::from_counts(&errkinds))
         .set("panic_classes", J::Obj(panics.iter().map(|(k, v)| (k.clone(), J::u(v.1))).collect()))
         .set("aborts_or_hangs", J::u(abnormal.len() as u64))
+        .set("stopped_early_after_repeated_aborts_or_hangs", J::Bool(truncated))
         .set("peak_case_allocation_bytes", J::u(maxpeak))
         .set("allocation_budget", J::s("64 x file size + 64 MiB of live heap per case (counting global allocator); a refused request aborts the worker and is attributed by the parent"))
         .set("hang_rule", J::s("wall clock: no progress for 20 s (normal case < 10 ms), confirmed alone with 60 s"))
